@@ -1310,6 +1310,13 @@ int safec_vsnprintf_s(out_fct_type out, const char *funcname, char *buffer,
                     return -(ESNULLP);
                 }
                 l = wcsnlen_s(lp, precision ? precision : RSIZE_MAX_WSTR);
+                /* room for the multibyte form: with a precision at most that
+                   many bytes (wcstombs stops in front of a character that
+                   would exceed it), else every character at its longest */
+                if (!(flags & FLAGS_PRECISION) || precision > l * MB_LEN_MAX)
+                    l *= MB_LEN_MAX;
+                else
+                    l = precision;
                 p = (char *)malloc(l + 1);
                 if (!p) {
                     char msg[80];
@@ -1328,6 +1335,7 @@ int safec_vsnprintf_s(out_fct_type out, const char *funcname, char *buffer,
                     free(p);
                     return -err;
                 }
+                l = (unsigned int)len; /* bytes from here on */
 #else
                 {
                     char msg[80];
